@@ -19,12 +19,17 @@
     `spill (n - REGISTER_NUM)` otherwise.  This is an order isomorphism between `Nat` and the temporaries
     with register number `< REGISTER_NUM` (all that `temporary_from_position` can produce), so "iterate in
     ascending order" means the same on both sides.  RV64 has registers only: `decode n = reg n`.
+  * `temporaryFromPosition` (utils.rs: fn temporary_from_position, all three backends) gives the
+    location code of a position number (`none` = the panic "Out of temporaries"/"Out of registers");
+    `codeSubstituteX86/A64/RV64` instantiate statements/substitute.rs with it.
   * Only the three instructions that the moves use are modelled.  `MOVS r, [STACK + stack_offset p]` is
     `MOVS r p`: the spill area is a separate array indexed by spill position (`stack_offset` is
     injective and the stack pointer is not a temporary), likewise `MOVL`, `STR`, `LDR`.
   * Machine state: registers and spill slots, `MState V`.
 -/
 import Scc.PMoves.Model
+
+set_option autoImplicit false
 
 namespace Scc.PMoves
 
@@ -171,6 +176,26 @@ def parallelMovesX86 (pm : PMap) : Res (List Code) :=
 /-- Temporaries that substitutions may use: everything except `TEMP` and `SPILL_TEMP`. -/
 def usable (n : Nat) : Bool := n != TEMP && n != REGISTER_NUM + SPILL_TEMP
 
+/-- config.rs: RESERVED, RESERVED_SPILLS, SPILL_NUM -/
+def RESERVED : Nat := 4
+def RESERVED_SPILLS : Nat := 1
+def SPILL_NUM : Nat := 256
+
+/-- utils.rs: fn temporary_from_position, as a location code; `none` = panic "Out of temporaries" -/
+def temporaryFromPosition (position : Nat) : Option Nat :=
+  let registerNumber := position + RESERVED
+  if registerNumber < REGISTER_NUM then some (encode (.reg registerNumber))
+  else
+    let spillNumber := registerNumber - REGISTER_NUM + RESERVED_SPILLS
+    if spillNumber < SPILL_NUM then some (encode (.spill spillNumber)) else none
+
+/-- statements/substitute.rs instantiated with the x86-64 backend: reference-count instructions
+    (abstract, on location codes) and the concrete moves -/
+def codeSubstituteX86 (rearrange : Rearrange) (context : Ctx) : SubstRes × List Code :=
+  match codeSubstitute temporaryFromPosition rearrange context containsSpillEdge with
+  | .ok rc mv => (.ok rc mv, lowerAll mv)
+  | r => (r, [])
+
 def Code.render : Code → String
   | .MOV t s => s!"MOV {t} {s}"
   | .MOVS s p => s!"MOVS {s} {p}"
@@ -262,6 +287,25 @@ def parallelMovesA64 (pm : PMap) : Res (List Code) :=
 /-- Temporaries that substitutions may use: everything except `TEMP` and `TEMP2`. -/
 def usable (n : Nat) : Bool := n != TEMP && n != TEMP2
 
+/-- config.rs: RESERVED, RESERVED_SPILLS, SPILL_NUM -/
+def RESERVED : Nat := 4
+def RESERVED_SPILLS : Nat := 1
+def SPILL_NUM : Nat := 256
+
+/-- utils.rs: fn temporary_from_position, as a location code; `none` = panic "Out of temporaries" -/
+def temporaryFromPosition (position : Nat) : Option Nat :=
+  let registerNumber := position + RESERVED
+  if registerNumber < REGISTER_NUM then some (encode (.reg registerNumber))
+  else
+    let spillNumber := registerNumber - REGISTER_NUM + RESERVED_SPILLS
+    if spillNumber < SPILL_NUM then some (encode (.spill spillNumber)) else none
+
+/-- statements/substitute.rs instantiated with the AArch64 backend -/
+def codeSubstituteA64 (rearrange : Rearrange) (context : Ctx) : SubstRes × List Code :=
+  match codeSubstitute temporaryFromPosition rearrange context containsSpillEdge with
+  | .ok rc mv => (.ok rc mv, lowerAll mv)
+  | r => (r, [])
+
 def Code.render : Code → String
   | .MOVR t s => s!"MOVR {t} {s}"
   | .STR s p => s!"STR {s} {p}"
@@ -309,6 +353,22 @@ def parallelMovesRV64 (pm : PMap) : Res (List Code) :=
   | .missingKey => .missingKey
 
 def usable (n : Nat) : Bool := n != TEMP
+
+/-- config.rs: RESERVED, REGISTER_NUM -/
+def RESERVED : Nat := 4
+def REGISTER_NUM : Nat := 32
+
+/-- utils.rs: fn variable_temporary: `register_number = 2 * position + number + RESERVED`;
+    `none` = panic "Out of registers" -/
+def temporaryFromPosition (position : Nat) : Option Nat :=
+  let registerNumber := position + RESERVED
+  if registerNumber < REGISTER_NUM then some registerNumber else none
+
+/-- statements/substitute.rs instantiated with the RV64 backend -/
+def codeSubstituteRV64 (rearrange : Rearrange) (context : Ctx) : SubstRes × List Code :=
+  match codeSubstitute temporaryFromPosition rearrange context containsSpillEdge with
+  | .ok rc mv => (.ok rc mv, lowerAll mv)
+  | r => (r, [])
 
 end RV64
 
@@ -374,7 +434,10 @@ def checkSubstRV64 (pm : PMap) : Bool :=
       (`MOV t s`, `MOVS s p`, `MOVL t p`; `MOVR t s`, `STR s p`, `LDR t p`; `MV t s`; `COMMENT msg`),
       where temporaries are given by their code (x86: `n < 16` register `n`, else spill `n-16`;
       AArch64: boundary 30; RV64: register `n`);
-    `chkx86 <pm>` / `chka64 <pm>` / `chkrv64 <pm>` -> `true` / `false`. -/
+    `chkx86 <pm>` / `chka64 <pm>` / `chkrv64 <pm>` -> `true` / `false`;
+    `substx86 <ctx> -> <rearrange>` / `substa64 ...` / `substrv64 ...` (formats as for `subst`) ->
+      refcount ops (`erase <code>`, `share <code> <n>`, `comment ...`) then the concrete move
+      instructions, or `panic` / `outOfFuel` / `missingKey`. -/
 def handleLineBackends (line : String) : String :=
   let (cmd, arg) := splitCommand line
   let withPm := fun (f : PMap → String) =>
@@ -386,6 +449,12 @@ def handleLineBackends (line : String) : String :=
     | .ok code => "|".intercalate (code.map r)
     | .outOfFuel => "outOfFuel"
     | .missingKey => "missingKey"
+  let rendS := fun {C : Type} (r : C → String) (res : SubstRes × List C) =>
+    match res with
+    | (.ok rc _, code) => "|".intercalate (rc.map ROp.render ++ code.map r)
+    | (.panic, _) => "panic"
+    | (.outOfFuel, _) => "outOfFuel"
+    | (.missingKey, _) => "missingKey"
   if cmd == "pmx86" then withPm (fun pm => rend X86.Code.render (X86.parallelMovesX86 pm))
   else if cmd == "pma64" then withPm (fun pm => rend A64.Code.render (A64.parallelMovesA64 pm))
   else if cmd == "pmrv64" then
@@ -394,6 +463,19 @@ def handleLineBackends (line : String) : String :=
   else if cmd == "chkx86" then withPm (fun pm => toString (checkSubstX86 pm))
   else if cmd == "chka64" then withPm (fun pm => toString (checkSubstA64 pm))
   else if cmd == "chkrv64" then withPm (fun pm => toString (checkSubstRV64 pm))
+  else if cmd == "substx86" then
+    match parseSubst arg with
+    | none => "error"
+    | some (ctx, re) => rendS X86.Code.render (X86.codeSubstituteX86 re ctx)
+  else if cmd == "substa64" then
+    match parseSubst arg with
+    | none => "error"
+    | some (ctx, re) => rendS A64.Code.render (A64.codeSubstituteA64 re ctx)
+  else if cmd == "substrv64" then
+    match parseSubst arg with
+    | none => "error"
+    | some (ctx, re) => rendS (fun c => match c with
+      | RV64.Code.MV t s => s!"MV {t} {s}" | .COMMENT m => s!"COMMENT {m}") (RV64.codeSubstituteRV64 re ctx)
   else handleLine line
 
 end Scc.PMoves
